@@ -156,6 +156,8 @@ impl PidFileLocking {
         fs.sync_all()?;
         fs.flush()?;
         drop(fs);
+        #[cfg(fuellabs_sway_verif)]
+        verif::step("rename");
         std::fs::rename(&tmp_path, &self.0)?;
         Ok(())
     }
